@@ -66,3 +66,15 @@ func VerifC14EncodedSize() (n int, err error) {
 func VerifC14WriteConfig() (err error) {
 	return config.write(nil)
 }
+
+// VerifC14ParseConfig runs the real configuration loader, including the schema
+// upgrade and the rewrite of the upgraded file, on the file set by
+// VerifC14Init.
+func VerifC14ParseConfig(workDir string) (err error) {
+	globalContext.workDir = workDir
+	config.Lock()
+	config.fileData = nil
+	config.Unlock()
+
+	return parseConfig()
+}
